@@ -47,22 +47,24 @@ def same(node, text: str) -> bool:
 
 ATTRS = {"value": "PValue", "weight": "PWeight", "ndim": "PNdim", "shape": "PShape"}
 # sibling functions of the layer that appear as primitives (their own bodies are tied separately)
-SIBLING_OF_PRIM = {"PFilled": "filled", "PValued": "valued", "PMap": "map", "PMapBoth": "map_both", "PWsum": "wsum", "PSumM": "sum",
+SIBLING_OF_PRIM = {"PWAbs": "__abs__", "PFilled": "filled", "PValued": "valued", "PMap": "map", "PMapBoth": "map_both", "PWsum": "wsum", "PSumM": "sum",
                    "PGetDim": "_get_dim", "PWsumDim": "wsum_dim", "PView": "view"}
 
 
 class Fn:
     """Translation of one FunctionDef."""
 
-    def __init__(self, f: ast.FunctionDef, where: str):
+    def __init__(self, f: ast.FunctionDef, where: str, closure: tuple = ()):
         self.f, self.where = f, where
+        self.closure = list(closure)       # variables of the enclosing function (bound first)
+        self.aliases = {}                  # local name -> (prim, translated object) for `conv = x.valued`
         a = f.args
         if a.posonlyargs:
             bad(f, "positional-only parameters")
         self.params = [x.arg for x in a.args] + [x.arg for x in a.kwonlyargs]
         self.vararg = a.vararg.arg if a.vararg else None
         self.varkw = a.kwarg.arg if a.kwarg else None
-        self.locals = set(self.params) | ({self.vararg} if self.vararg else set()) | ({self.varkw} if self.varkw else set())
+        self.locals = set(self.params) | set(self.closure) | ({self.vararg} if self.vararg else set()) | ({self.varkw} if self.varkw else set())
         self.defaults = {}
         pos_defaults = a.defaults
         for x, d in zip(a.args[len(a.args) - len(pos_defaults):], pos_defaults):
@@ -126,6 +128,9 @@ class Fn:
             if isinstance(n.value, int):
                 return f"XInt ({n.value})%Z"
             bad(n, "constant")
+        if isinstance(n, ast.UnaryOp) and isinstance(n.op, ast.USub) and isinstance(n.operand, ast.Constant) \
+                and isinstance(n.operand.value, int) and not isinstance(n.operand.value, bool):
+            return f"XInt ({-n.operand.value})%Z"
         if isinstance(n, ast.Attribute):
             if n.attr in ATTRS:
                 return self.P(ATTRS[n.attr], self.x(n.value))
@@ -161,6 +166,8 @@ class Fn:
         if isinstance(n, ast.BinOp):
             if isinstance(n.op, ast.Mult):
                 return self.P("PMul", self.x(n.left), self.x(n.right))
+            if isinstance(n.op, ast.Pow):
+                return self.P("PPow", self.x(n.left), self.x(n.right))
             if (isinstance(n.op, ast.Add) and isinstance(n.left, ast.Attribute) and n.left.attr == "shape"
                     and isinstance(n.right, ast.BinOp) and isinstance(n.right.op, ast.Mult) and same(n.right.left, "(1,)")):
                 return self.P("PRightShape", self.x(n.left), self.x(n.right.right))
@@ -206,8 +213,15 @@ class Fn:
         # ---- builtins / torch / constructors
         if isinstance(f, ast.Name):
             name = f.id
+            if name in self.aliases and len(n.args) == 1 and not n.keywords:
+                p, obj = self.aliases[name]
+                return self.P(p, obj, self.x(n.args[0]))
+            if name == "abs" and len(n.args) == 1 and not n.keywords:
+                return self.P("PAbs", self.x(n.args[0]))
             if name == "isinstance" and len(n.args) == 2 and not n.keywords:
                 t = n.args[1]
+                if same(t, "(tuple, list, set, frozenset)"):
+                    return self.P("PIsCollection", self.x(n.args[0]))
                 if same(t, "WeightedTensor"):
                     return self.P("PIsWeighted", self.x(n.args[0]))
                 if same(t, "torch.Tensor"):
@@ -252,6 +266,12 @@ class Fn:
                 return self.P("PWsumDim", self.x(n.args[0]), self.kw(n, "fill_value", "XInt (0)%Z"), self.kw(n, "dim", "XNone"),
                               self.kw(n, "but_dim", "XNone"))
             bad(n, "call of an unknown function")
+        if (isinstance(f, ast.Call) and isinstance(f.func, ast.Name) and f.func.id == "type" and len(f.args) == 1 and not f.keywords
+                and isinstance(f.args[0], ast.Name) and len(n.args) == 1 and not n.keywords and isinstance(n.args[0], ast.Call)
+                and isinstance(n.args[0].func, ast.Name) and n.args[0].func.id == "map" and len(n.args[0].args) == 2
+                and isinstance(n.args[0].args[0], ast.Name) and n.args[0].args[0].id in self.aliases
+                and same(n.args[0].args[1], f.args[0].id)):
+            return self.P("PMapCollection", self.x(f.args[0]))      # type(r)(map(conv, r)): a collection of results, outside the model
         if isinstance(f, ast.Call) and same(f, "type(self)") and "self" in self.locals and not n.keywords and len(n.args) in (1, 2):
             return self.P("PMk", *[self.x(a) for a in n.args])
         if isinstance(f, ast.Attribute):
@@ -267,6 +287,8 @@ class Fn:
                 bad(n, "torch function")
             o = self.x(obj)
             na, nk = len(n.args), len(n.keywords)
+            if m == "__abs__" and nk == 0 and na == 0:
+                return self.P("PWAbs", o)
             if m == "filled" and nk == 0 and na <= 1:
                 return self.P("PFilled", o, self.x(n.args[0]) if na else "XNone")
             if m == "valued" and nk == 0 and na == 1:
@@ -317,8 +339,19 @@ class Fn:
         if isinstance(s, ast.Assign):
             if len(s.targets) != 1 or not isinstance(s.targets[0], ast.Name):
                 bad(s, "assignment target")
-            e = self.x(s.value)
             name = s.targets[0].id
+            if isinstance(s.value, ast.Attribute) and s.value.attr == "valued":
+                # conv = x.valued : a bound method, only ever CALLED below (any other use of the name is untranslatable)
+                if name in self.locals or name in self.aliases:
+                    bad(s, "alias of a bound method that shadows a name")
+                self.aliases[name] = ("PValued", self.x(s.value.value))
+                try:
+                    return self.block(tail, rest)
+                finally:
+                    del self.aliases[name]
+            if name in self.aliases:
+                bad(s, "assignment to the alias of a bound method")
+            e = self.x(s.value)
             saved = set(self.locals)
             self.locals.add(name)
             k = self.block(tail, rest)
@@ -350,7 +383,7 @@ class Fn:
         bad(s, "statement")
 
     def fundef(self) -> str:
-        names = list(self.params) + ([self.vararg] if self.vararg else []) + ([self.varkw] if self.varkw else [])
+        names = self.closure + list(self.params) + ([self.vararg] if self.vararg else []) + ([self.varkw] if self.varkw else [])
         body = self.block(self.f.body, [])
         return f"mkF [{'; '.join(q(p) for p in names)}]\n  ({body})"
 
@@ -386,6 +419,10 @@ TARGETS = [
     ("view", "utils/weighted_tensor/_weighted_tensor.py", "WeightedTensor", "view"),
     ("expand", "utils/weighted_tensor/_weighted_tensor.py", "WeightedTensor", "expand"),
     ("get_filled_value_and_weight", "utils/weighted_tensor/_weighted_tensor.py", "WeightedTensor", "get_filled_value_and_weight"),
+    ("neg", "utils/weighted_tensor/_weighted_tensor.py", "WeightedTensor", "__neg__"),
+    ("abs_dunder", "utils/weighted_tensor/_weighted_tensor.py", "WeightedTensor", "__abs__"),
+    ("abs", "utils/weighted_tensor/_weighted_tensor.py", "WeightedTensor", "abs"),
+    ("pow", "utils/weighted_tensor/_weighted_tensor.py", "WeightedTensor", "__pow__"),
     ("get_dim", "utils/weighted_tensor/_utils.py", None, "_get_dim"),
     ("sum_dim", "utils/weighted_tensor/_utils.py", None, "sum_dim"),
     ("wsum_dim", "utils/weighted_tensor/_utils.py", None, "wsum_dim"),
@@ -439,6 +476,27 @@ def translate_text(src_root: Path) -> tuple[str, dict]:
         out.append("")
         graph[name] = sorted({SIBLING_OF_PRIM[p] for p in fn.used_prims if p in SIBLING_OF_PRIM})
         info["functions"].append(f"{rel}:{name}")
+    # _factory.py: factory_weighted_tensor_unary_operator(f, *, fill_value=None) must be `def f_compatible(x, *args, **kws): ...; return f_compatible`
+    rel = "utils/weighted_tensor/_factory.py"
+    ft = ast.parse((src_root / rel).read_text())
+    outer = find(ft, None, "factory_weighted_tensor_unary_operator")
+    oa = outer.args
+    if ([x.arg for x in oa.args], [x.arg for x in oa.kwonlyargs], oa.vararg, oa.kwarg, oa.posonlyargs) != (["f"], ["fill_value"], None, None, []) \
+            or len(oa.kw_defaults) != 1 or not same(oa.kw_defaults[0], "None") or oa.defaults or outer.decorator_list:
+        bad(outer, "signature of factory_weighted_tensor_unary_operator")
+    obody = [s_ for s_ in outer.body if not (isinstance(s_, ast.Expr) and isinstance(s_.value, ast.Constant))]
+    if not (len(obody) == 2 and isinstance(obody[0], ast.FunctionDef) and isinstance(obody[1], ast.Return)
+            and isinstance(obody[1].value, ast.Name) and obody[1].value.id == obody[0].name
+            and [_src(d) for d in obody[0].decorator_list] == ["wraps(f)"]):
+        bad(outer, "factory_weighted_tensor_unary_operator is not `@wraps(f) def g(...): ...; return g`")
+    fn = Fn(obody[0], f"{rel}:factory_weighted_tensor_unary_operator.{obody[0].name}", closure=("f", "fill_value"))
+    if fn.defaults:
+        bad(obody[0], "defaults of the inner function")
+    out.append(f"(* {rel} : the function returned by factory_weighted_tensor_unary_operator(f, fill_value=...), line {obody[0].lineno} *)")
+    out.append(f"Definition src_factory : fundef :=\n  {fn.fundef()}.")
+    out.append("")
+    graph["factory_weighted_tensor_unary_operator"] = sorted({SIBLING_OF_PRIM[p] for p in fn.used_prims if p in SIBLING_OF_PRIM})
+    info["functions"].append(f"{rel}:factory_weighted_tensor_unary_operator")
     # dunder dispatch table
     rows = []
     t = trees["utils/weighted_tensor/_weighted_tensor.py"]
@@ -463,7 +521,7 @@ def translate_text(src_root: Path) -> tuple[str, dict]:
     out.append("")
     # acyclic call graph among the translated functions (sibling calls are given the meaning of the hand-written function,
     # which is sound only if every callee's own body is tied and the calls do not loop)
-    names = {n for _, _, _, n in TARGETS}
+    names = {n for _, _, _, n in TARGETS} | {"factory_weighted_tensor_unary_operator"}
     state = {}
 
     def visit(n, path):
